@@ -81,6 +81,7 @@ func runC11(tier string) int {
 		kindOf   int
 		formOf   int
 		sameKind bool // both AutoVar leaves call the same command (with different arguments)
+		sameCall bool // ... with the very same arguments and the same comparison: the command still runs once per leaf
 	}
 	var jobs []job
 	for k := 1; k <= maxK; k++ {
@@ -96,9 +97,12 @@ func runC11(tier string) int {
 							if k >= 3 && (kind*7+form*3+a+b)%4 != 0 {
 								continue // rotation for larger trees
 							}
-							jobs = append(jobs, job{k, t, autos, kind, form, false})
+							jobs = append(jobs, job{k, t, autos, kind, form, false, false})
 							if len(autos) == 2 && kind != 4 {
-								jobs = append(jobs, job{k, t, autos, kind, form, true})
+								jobs = append(jobs, job{k, t, autos, kind, form, true, false})
+								if k <= 3 {
+									jobs = append(jobs, job{k, t, autos, kind, form, true, true})
+								}
 							}
 						}
 					}
@@ -120,6 +124,9 @@ func runC11(tier string) int {
 						}
 						if n == 1 && kind == 4 {
 							kind = 0 // at most one inline text per program
+						}
+						if j.sameCall {
+							return autoLeaf(kind, (j.formOf+n*4)%numAutoForms, 1) // same argument index: the two calls are spelled alike
 						}
 						return autoLeaf(kind, (j.formOf+n*4)%numAutoForms, i+1)
 					}
@@ -269,7 +276,7 @@ func runC11(tier string) int {
 	r.Assume("command config: fixed var_name, var_name_arg_position 0 and 1, a command without argument list, a constant argument, an inline text argument",
 		"the preamble is an observable command whose text is the statement rendering 'name arg, arg' (C10 checks that rendering rule separately)")
 	return r.Finish(r.Get("evaluations"), r.Get("nontrivial"),
-		"C02's expression trees with 1-2 leaves replaced by AutoVar leaves (7 command kinds incl. arguments containing '%' x 9 comparison forms, rotated for k>=3) x decorations x 18 condition positions (four of them - for conditions of <= 2 leaves - an if whose body is a single call / goto / return / end; the 14th - a trailing elif with an empty body - in lazy mode: its AutoVar command must still run) x optimize on/off, plus AutoVar switch operands in 7 contexts (incl. switches nested in its cases and the AutoVar switch nested in another switch), plus AutoVar switch / if / while / do...while statements inside poryswitch cases (colon and brace form, selected directly and through '_'), plus while / do...while loops with an AutoVar condition (alone and behind &&) whose body holds no command (break, continue, nothing, a guarded break, a poryswitch that leaves a break) or label-reached statements after a break (lazy mode); the programs with <= 2 leaves, the switch programs and the poryswitch-wrapped ones also compiled with line markers on, without and with an input path; lockstep exploration (the preamble command, each operand read and each body command are observable events); non-trivial = >= 2 leaves or a switch")
+		"C02's expression trees with 1-2 leaves replaced by AutoVar leaves (also two calls of one command, with different and with the very same arguments; 7 command kinds incl. arguments containing '%' x 9 comparison forms, rotated for k>=3) x decorations x 18 condition positions (four of them - for conditions of <= 2 leaves - an if whose body is a single call / goto / return / end; the 14th - a trailing elif with an empty body - in lazy mode: its AutoVar command must still run) x optimize on/off, plus AutoVar switch operands in 7 contexts (incl. switches nested in its cases and the AutoVar switch nested in another switch), plus AutoVar switch / if / while / do...while statements inside poryswitch cases (colon and brace form, selected directly and through '_'), plus while / do...while loops with an AutoVar condition (alone and behind &&) whose body holds no command (break, continue, nothing, a guarded break, a poryswitch that leaves a break) or label-reached statements after a break (lazy mode); the programs with <= 2 leaves, the switch programs and the poryswitch-wrapped ones also compiled with line markers on, without and with an input path; lockstep exploration (the preamble command, each operand read and each body command are observable events); non-trivial = >= 2 leaves or a switch")
 }
 
 func c11Eval(r *harness.Run, sc *model.Script, copts *comp.Opts, desc string, nontrivial bool) {
